@@ -39,6 +39,9 @@ SLEN == 4
 P == INSTANCE CfbPhys WITH SectorLen <- SLEN, MiniLen <- 2, Cutoff <- 8, FatPer <- 4, DirPer <- 2, DifatHdr <- 1,
                            DirCount <- V4, NameLess <- MCLess, NameEq <- MCEq, ModuloPolicy <- OldPolicy
 I == INSTANCE CfbImage WITH Dict <- MCDict, MiniLen <- 2, CutoffLen <- 8, DifatHdrLen <- 1
+MCKnown(n) == TRUE
+O == INSTANCE CfbOpen WITH DifatHdrLen <- 1, MiniLen <- 2, CutoffLen <- 8, NameLess <- MCLess, NameKnown <- MCKnown,
+                           RootNameStr <- "Root Entry"
 
 VARIABLES p,        \* physical state (CfbPhys)
           model,    \* abstract state: name -> [kind, size]
@@ -53,11 +56,14 @@ ImgSlot(e) ==
   IF e.kind = P!KUnalloc
   THEN [name |-> "", nunits |-> 0, nlen |-> 0, term_ok |-> FALSE, pad_zero |-> TRUE, type |-> 0, color |-> 0,
         left |-> -1, right |-> -1, child |-> -1, clsid |-> NilC, bits |-> "00000000", ct |-> <<0, 0, 0>>, mt |-> <<0, 0, 0>>,
-        start |-> 0, size |-> 0, blank |-> TRUE]
+        start |-> 0, size |-> 0, blank |-> TRUE,
+        t0 |-> TRUE, utf16 |-> TRUE, nbad |-> FALSE, linv |-> FALSE, rinv |-> FALSE, cinv |-> FALSE, size3 |-> 0, szmod |-> 0]
   ELSE [name |-> e.name, nunits |-> (IF e.kind = P!KRoot THEN 10 ELSE 1), nlen |-> (IF e.kind = P!KRoot THEN 22 ELSE 4),
         term_ok |-> TRUE, pad_zero |-> TRUE, type |-> e.kind, color |-> 1,
         left |-> e.left, right |-> e.right, child |-> e.child, clsid |-> NilC, bits |-> "00000000",
-        ct |-> <<0, 0, 0>>, mt |-> <<0, 0, 0>>, start |-> e.start, size |-> e.size, blank |-> FALSE]
+        ct |-> <<0, 0, 0>>, mt |-> <<0, 0, 0>>, start |-> e.start, size |-> e.size, blank |-> FALSE,
+        t0 |-> TRUE, utf16 |-> TRUE, nbad |-> FALSE, linv |-> FALSE, rinv |-> FALSE, cinv |-> FALSE, size3 |-> e.size,
+        szmod |-> e.size % 2]
 
 Image(q) ==
   LET dirSecs == P!Chain(q, q.dirStart)
@@ -71,7 +77,7 @@ Image(q) ==
                first_difat |-> q.hdr.firstDifat, ndifat |-> q.hdr.ndifat, difat |-> hdrDifat],
       difat_secs |-> q.difatSecs, difat_end |-> -2,
       difat_ext |-> SubSeq(q.difat, 2, Len(q.difat)), difat_ext_rawlen |-> 3 * Len(q.difatSecs),
-      fat |-> q.fat, fat_secs |-> q.difat, fat_len |-> 4 * Len(q.difat), fat_tail_nonfree |-> 0,
+      fat |-> q.fat, fat_secs |-> q.difat, fat_len |-> 4 * Len(q.difat), fat_tail_nonfree |-> 0, fat_tail |-> <<>>,
       dir_secs |-> dirSecs, dir_end |-> -2,
       slots |-> [i \in 1..nslots |-> IF i <= Len(q.slots) THEN ImgSlot(q.slots[i]) ELSE ImgSlot(P!Unalloc)],
       minifat |-> q.minifat, minifat_secs |-> P!Chain(q, q.minifatStart), minifat_end |-> -2,
@@ -168,6 +174,47 @@ InvAbs ==
        \E i \in live : /\ P!E(p, i).name = n
                        /\ P!E(p, i).kind = (IF model[n].kind = "stream" THEN P!KStream ELSE P!KStorage)
                        /\ P!E(p, i).size = model[n].size
+(* C02 at design level: every image the write paths produce is accepted by  *)
+(* the open path (CfbOpen = transcription of open_internal and the          *)
+(* validators), strictly and permissively, with the same tables.            *)
+InvOpen ==
+  LET a == O!Verdict(Image(p), TRUE)  b == O!Verdict(Image(p), FALSE) IN
+  a.k = "ok" /\ b.k = "ok" /\ a.st = b.st
+
+(* C16 at design level: damage one value of the image (any header counter   *)
+(* or start sector, any DIFAT / FAT / MiniFAT cell, any link, type, colour, *)
+(* start, length, terminator, CLSID or time of any slot) with every value   *)
+(* class; whenever the strict validator still accepts, the permissive one   *)
+(* accepts too and ends with the same tables and entries.  Damage that      *)
+(* makes the library read its tables from other sectors than the decode     *)
+(* lists is outside what the image record can express ("unknown").          *)
+CellVals(img) == {0, 1, 2, img.nsec - 1, img.nsec, -1, -2, -3, -4, -5, -9}
+SetHdr(img, f, v) == [img EXCEPT !.hdr = [@ EXCEPT ![f] = v]]
+Damaged(img) ==
+  LET V == CellVals(img) IN
+  {SetHdr(img, f, v) : f \in {"ndir", "nfat", "first_dir", "first_minifat", "nminifat", "first_difat", "ndifat"}, v \in V}
+  \cup {[img EXCEPT !.hdr.difat = [@ EXCEPT ![i] = v]] : i \in 1..Len(img.hdr.difat), v \in V}
+  \cup {[img EXCEPT !.difat_ext = [@ EXCEPT ![i] = v]] : i \in 1..Len(img.difat_ext), v \in V}
+  \cup {[img EXCEPT !.fat = [@ EXCEPT ![i] = v]] : i \in 1..Len(img.fat), v \in V}
+  \cup {[img EXCEPT !.minifat = [@ EXCEPT ![i] = v]] : i \in 1..Len(img.minifat), v \in V}
+  \cup UNION {
+       {[img EXCEPT !.slots[i].type = v] : v \in {0, 1, 2, 3, 5}}
+       \cup {[img EXCEPT !.slots[i].color = v] : v \in {0, 1, 2}}
+       \cup {[img EXCEPT !.slots[i].left = v] : v \in {-1, 0, 1, 2, 3, -9}}
+       \cup {[img EXCEPT !.slots[i].right = v] : v \in {-1, 0, 1, 2, 3, -9}}
+       \cup {[img EXCEPT !.slots[i].child = v] : v \in {-1, 0, 1, 2, 3, -9}}
+       \cup {[img EXCEPT !.slots[i].start = v] : v \in V}
+       \cup {[img EXCEPT !.slots[i].size = v, !.slots[i].size3 = v, !.slots[i].szmod = v % 2] : v \in {0, 1, 2, 7, 8, 9}}
+       \cup {[img EXCEPT !.slots[i].t0 = FALSE], [img EXCEPT !.slots[i].clsid = "11"], [img EXCEPT !.slots[i].ct = <<1, 0, 0>>],
+              [img EXCEPT !.slots[i].mt = <<1, 0, 0>>], [img EXCEPT !.slots[i].name = "Root Entry"], [img EXCEPT !.slots[i].name = "b"],
+              [img EXCEPT !.slots[i].linv = TRUE], [img EXCEPT !.slots[i].nbad = TRUE], [img EXCEPT !.slots[i].nlen = 66]}
+       : i \in 1..Len(img.slots)}
+InvC16 == \A d \in Damaged(Image(p)) : O!StrictImpliesPermissive(d)
+(* witnesses for the self-test: damage that strict open accepts exists, and damage that only  *)
+(* permissive open accepts exists                                                             *)
+NoDamageStrictAccepts == \A d \in Damaged(Image(p)) : d = Image(p) \/ O!Verdict(d, TRUE).k # "ok"
+NoDamageOnlyPermissive == \A d \in Damaged(Image(p)) : ~(O!Verdict(d, TRUE).k = "err" /\ O!Verdict(d, FALSE).k = "ok")
+
 (* C15: the size after repetition 2 is the baseline; later repetitions must not change it *)
 NoGrowth ==
   (phase = "done" /\ model = base) => (sizes[3] = sizes[2] /\ sizes[4] = sizes[2])
